@@ -70,6 +70,8 @@ type Incarnation struct {
 	closed     int
 	// FailAt injects an I/O error at call k (1-based, 0 = none) without applying it.
 	FailAt map[int]bool
+	// FailIf, when set, decides per call (index, described operations) whether it fails with an I/O error (not applied).
+	FailIf func(k int, ops []string) bool
 }
 
 func (d *Disk) NewIncarnation(n int) *Incarnation { return &Incarnation{disk: d, N: n} }
@@ -166,6 +168,9 @@ func (c *diskClient) apply(ops ...*storage.Operation) error {
 	}
 	inc.Trace = append(inc.Trace, fmt.Sprintf("#%d.%d %s%s", inc.N, k, strings.Join(descs, " "), tag))
 	if inc.FailAt[k] && !inc.fenced {
+		return fmt.Errorf("simdisk: injected I/O error at call %d", k)
+	}
+	if inc.FailIf != nil && !inc.fenced && inc.FailIf(k, descs) {
 		return fmt.Errorf("simdisk: injected I/O error at call %d", k)
 	}
 	var m map[string][]byte
